@@ -4,6 +4,9 @@
   each run — equals the arithmetic rendering it stands for.  A changed table entry breaks the build here.
 -/
 import SqlDt.Lemmas.Digits
+import SqlDt.Lemmas.RenderTypes
+import SqlDt.Lemmas.WellFormed
+import SqlDt.Model.Parse
 namespace SqlDt.C04
 open SqlDt Gen Spec
 
@@ -45,5 +48,41 @@ theorem sum_of_days_table :
     ∀ leap < 2, ∀ m < 12,
       (SUM_OF_DAYS_TABLE.getD leap []).getD m 0 =
         (((DAYS_OF_MONTH_TABLE.getD leap []).take (m + 1)).foldl (· + ·) 0) := by decide +kernel
+
+/-! ### Layer 2: field by field and whole pictures -/
+
+/-- FIELD BY FIELD, all six types: whenever the formatter's `NaiveDateTime` carries the components `c` of a valid value
+    (`Lemmas.Agrees`), each token is written exactly as `Spec.renderField` says – or formatting fails with a format
+    error when the token does not apply to the type. (`FractionOK`: the `f64` division of `FFn`, see Lemmas/Float.) -/
+theorem formatField_eq_render (ty : Ty) (v : Int) (dt : NDT) (c : Comps) (w : Sink) (f : Field)
+    (h : Lemmas.Agrees ty v dt c) (hf : Lemmas.Field.WellFormed f) (hfr : Lemmas.FractionOK dt c) :
+    Formatter.formatField ty v dt w f = Lemmas.outcome w (renderField ty c f) :=
+  Lemmas.formatField_eq_render ty v dt c w f h hf hfr
+
+/-- WHOLE PICTURE, any type: the text is the sign (intervals only, once, first) followed by the renderings in picture
+    order; one inapplicable token makes the whole call a format error. -/
+theorem format_eq_render (ty : Ty) (v : Int) (c : Comps) (h : Lemmas.Agrees ty v (NDT.ofValue ty v) c)
+    (hfr : Lemmas.FractionOK (NDT.ofValue ty v) c) (hneg : (NDT.ofValue ty v).negative = c.neg)
+    (fields : List Field) (hwf : ∀ f ∈ fields, Lemmas.Field.WellFormed f) :
+    Formatter.format ty v fields none = Lemmas.toChk (render ty c fields) :=
+  Lemmas.format_eq_render ty v c h hfr hneg fields hwf
+
+/-- DATES, end to end from the picture text: for every real date of years 1..9999 and EVERY picture,
+    `Date::format(picture)` is the picture's compile error, or the specified rendering of (y, m, d) with its weekday
+    and ordinal day, or a format error if the picture contains a token that does not apply to dates. -/
+theorem format_date (y m d : Int) (h : ValidYMD y m d) (pic : Bytes) :
+    formatValue .D (dayNumber y m d) pic none =
+      (Lexer.tryNew pic).bind fun fields => Lemmas.toChk (render .D (Lemmas.compsOfDate y m d) fields) := by
+  unfold formatValue
+  cases ht : Lexer.tryNew pic with
+  | error e => rfl
+  | ok fields =>
+    simp only [bind, Except.bind]
+    exact Lemmas.format_date y m d h fields (Lemmas.tryNew_wf pic fields ht)
+
+/-- Non-vacuity + a worked instance. -/
+example : ValidYMD 2024 2 29 ∧
+    formatValue .D (dayNumber 2024 2 29) (lit "Day, DD Month YYYY DDD W WW D") none
+      = .ok (lit "Thursday, 29 February 2024 060 5 09 5") := by decide +kernel
 
 end SqlDt.C04
